@@ -1,5 +1,6 @@
 """C14 Missing sub-packages are re-requested exactly, stale transfers expire (DESIGN.md section 5, C14)."""
-import json
+import json, os
+import vlib
 from checks import extract_common as xc
 
 LEVEL = "model_checking"
@@ -20,6 +21,14 @@ def check(ctx):
                 dict(NA=6, NB=0, MaxSteps=8, MaxDup=0, MaxBad=0, Ticks="{5200}", Ver=0)]
     xc.mc_subpkg(ctx, cfgs)
     xc.trace_extract(ctx, 300 if thorough else 40)
+    # live, with real waiting (5.3 s): five idle transfers, a busy writer, more re-requests than the writer's queue holds
+    from checks import live_common as lc
+    from checks.c01 import trace_validate
+    lv = os.path.join(ctx.scratch, "c14_live.ndjson")
+    r = ctx.vh(["live-c14", lv], timeout=300)
+    lc.crash_check(ctx, r.returncode, r.stderr, "live-c14")
+    lev = vlib.read_nd(lv, quoted=False)
+    trace_validate(ctx, "Trace_ReRequest", lv, lev, "live-re-requests-validated-by-Trace_ReRequest", lambda inv, e: inv + " live")
     ctx.cov["rule"] = ("MC_SubPkg with logical time: Tick steps of 4.9 s / 5.2 s / 55 s between frames so that behaviours cross the 5 s idle "
                        "and 60 s expiry thresholds from both sides (margins of 100-200 ms); ExactMissing, ReReqSpacing, MustReRequest, "
                        "ExpiredNeverDelivered on the spec; each behaviour replayed on the real extractor with Age(d) standing for elapsed time. "
